@@ -379,6 +379,21 @@ def run(ctx):
         ctx.check(ok, "R15.4", "GroupedRecord.__init__:first-member-wins", "a later member overwrites the field of an earlier one", s0, f"store only when {k} is not yet mapped",
                   key="R15.4:GroupedRecord.__init__:overwrites")
 
+    # the declared-fields mapping of a descriptor is never extended in place: "all fields" is a COPY plus the reserved fields
+    gaf = ctx.anchor_func("flow.record.base.RecordDescriptor.get_all_fields")
+    from ..core import dict_bindings as _db
+
+    n_st = 0
+    for st in walk_no_nested(gaf):
+        if isinstance(st, ast.Assign) and any(norm(t) == "self._all_fields" for t in st.targets) and not (isinstance(st.value, ast.Constant) and st.value.value is None):
+            n_st += 1
+            bases_, _b, copied_ = _db(gaf, st.value)
+            in_place = [c for c in calls_in(gaf) if isinstance(c.func, ast.Attribute) and c.func.attr in ("update", "setdefault", "__setitem__") and norm(c.func.value) in ("self.fields", "self._fields")]
+            ctx.check(copied_ and not in_place, "R15.4", "RecordDescriptor.get_all_fields:copy", f"`{norm(st)[:70]}`: the mapping that receives the reserved fields is the descriptor's own "
+                      "declared-fields mapping, not a copy - afterwards desc.fields lists the metadata fields too (the timestamp expansion then yields a record for _generated, "
+                      "projections by field name break)", st, "self.fields.copy() + update(required fields)", key="R15.4:get_all_fields:mutates-declared-fields")
+    ctx.floor("R15.4", "assignments of the all-fields cache", n_st, 1)
+
     # ------------------------------------------------------------------ R15.5 timestamp expansion
     ctx.rule("R15.5", "iter_timestamped_records: TimestampRecord(<value of the field>, <name of the field>) matches the descriptor's field order (ts, ts_description); the "
                       "timestamp record goes first; the original name is kept; one record per datetime field; a record without datetime fields is yielded unchanged")
